@@ -8,6 +8,7 @@ import (
 	"encoding/json"
 	"flag"
 	"fmt"
+	"github.com/vmware/go-ipfix/pkg/intermediate"
 	"hash/fnv"
 	"math/rand"
 	"os"
@@ -253,9 +254,47 @@ func main() {
 	r := rand.New(rand.NewSource(*seed))
 	dist := map[uint64]bool{}
 	evals := 0
+	if *mode == "c06many" {
+		// hundreds of flows due in the same scan (spec/AggMany.tla): 5-tuples made on the fly, one record each
+		for _, n := range []int{100, 128, 129, 150, 400} {
+			p := agg.New(2, 3, 1, 1)
+			w.Reset(vt.Ev{"tag": "many", "n": n})
+			keyOf := map[intermediate.FlowKey]int{}
+			for i := 1; i <= n; i++ {
+				evals++
+				name := fmt.Sprintf("m%d", i)
+				agg.Pool[name] = agg.Tuple{Src: fmt.Sprintf("10.1.%d.%d", i/250, 1+i%250), Dst: "10.2.0.1", Proto: 6, SPort: uint16(1000 + i), DPort: 80}
+				keyOf[agg.Pool[name].FlowKey()] = i
+				rec := agg.Rec{Key: name, Sp: "pod-a", Dp: "pod-b", Sns: "ns-a", Dns: "ns-b", Ftype: 1, Reason: 2, Start: 1000, End: 1001 + i%7,
+					Vals: []int{1, 1, 1, 1, 1, 1}, Cip: []int{0, 0, 0, 0}}
+				if err := p.A.AggregateMsgByFlowKey(agg.BuildMessage(rec)); err != nil {
+					panic(err)
+				}
+			}
+			w.Emit(vt.Ev{"e": "NewFlows", "n0": 1, "n1": n})
+			p.Advance(4) // beyond the inactive timeout (3 units) of every flow
+			w.Emit(vt.Ev{"e": "PassAll"})
+			calls := []int{}
+			err := p.A.ForAllExpiredFlowRecordsDo(func(k intermediate.FlowKey, _ *intermediate.AggregationFlowRecord) error {
+				calls = append(calls, keyOf[k])
+				return nil
+			})
+			_, heap, _ := p.A.VerifSnapshot()
+			w.Emit(vt.Ev{"e": "ScanAll", "calls": calls, "left": int(p.A.GetNumFlows()), "queued": len(heap), "err": err != nil})
+			for i := 1; i <= n; i++ {
+				delete(agg.Pool, fmt.Sprintf("m%d", i))
+			}
+			dist[uint64(n)] = true
+		}
+		w.Close()
+		vt.PrintSummary(vt.Summary{Events: w.Events(), Traces: w.Traces(), Evaluations: evals, Distinct: len(dist)})
+		return
+	}
 	if *mode == "c05big" {
 		// counters between 2^40 and 2^60 on one intra-node flow per history (spec/trace/C05BigTrace.tla)
-		l4 := func(x uint64) []int { return []int{int(x & 0xffff), int(x >> 16 & 0xffff), int(x >> 32 & 0xffff), int(x >> 48 & 0xffff)} }
+		l4 := func(x uint64) []int {
+			return []int{int(x & 0xffff), int(x >> 16 & 0xffff), int(x >> 32 & 0xffff), int(x >> 48 & 0xffff)}
+		}
 		nh := 60
 		if thorough {
 			nh = 600
